@@ -30,7 +30,8 @@ In4xx(s) == s >= 400 /\ s <= 499
 
 SrvOK(e) == LET q == QCases[e.i].q IN
             /\ ~e.panic /\ e.mut = 0
-            /\ IF InvalidEnums(Norm(q)) THEN In4xx(e.st) /\ e.got = << >>
+            /\ IF QCases[e.i].zerolimit THEN e.st = 207 /\ \A j \in 1..Len(e.got) : e.got[j].limit # 0     \* never as an unlimited query
+               ELSE IF InvalidEnums(Norm(q)) THEN In4xx(e.st) /\ e.got = << >>
                ELSE e.st = 207 /\ Len(e.got) = 1 /\ GotNorm(e.got[1]) = Norm(q)
 CliOK(e) == LET q == QCases[e.i].q IN
             \/ (e.err /\ ~e.sent /\ InvalidEnums(Norm(q)))                   \* refused by the client: only for inexpressible values
